@@ -211,6 +211,21 @@ theorem signals_balanced (c : Cfg α) (dstExists : Bool) (n : Nat) :
   · intro h; rw [q, h]; rfl
   · rintro (h | h | h | h) <;> rw [q, h] <;> rfl
 
+/-- The exit path (src/common/tuklib_exit.c, shared by xz, xzdec and lzmainfo): a failing close of standard output is
+    never answered with exit status 0, an earlier error status is kept, and without such a failure the status is
+    unchanged.  The model has no verbosity at all: the exit status and the handling of the files do not depend on
+    -q / -qq / -v (message_error()/message_warning() set the status whether or not the text is shown); the
+    correspondence runs the failure scenarios under each verbosity against this one model. -/
+theorem exit_path (status : Nat) :
+    tuklibExit status true ≠ 0 ∧ tuklibExit 1 true = 1 ∧ tuklibExit status false = status := by
+  unfold tuklibExit
+  refine ⟨?_, by simp, by simp⟩
+  split
+  · simp
+  · rename_i h
+    intro h0
+    exact h ⟨by omega, rfl⟩
+
 /-- The model does not contain IO_BUFFER_SIZE at all: the sizes of the io_read()/io_write() requests come from the
     schedule `c.ops`, over which every theorem above quantifies; so they hold for every buffer size.  What the code
     itself needs from the constant (regenerated from src/xz/file_io.h on every run) is checked here: positive, a
